@@ -74,6 +74,8 @@ class Cloner:
         self._post_process = post_process
         self._resolve_ref_attrs = resolve_ref_attrs
         self._allow_outer_scope_values = allow_outer_scope_values
+        # The graphs currently being cloned by clone_graph (outermost first)
+        self._graphs_in_progress: list[_core.Graph | _core.GraphView] = []
 
     @_capture_error_context
     def _get_value(self, value: _core.Value) -> _core.Value | None:
@@ -168,6 +170,17 @@ class Cloner:
             elif input not in self._value_map:
                 # If the node input cannot be found in the value map, it must be an outer-scope
                 # value, given that the nodes are sorted topologically.
+                producer = input.producer()
+                # Note: input.graph may name another graph that lists the value as its output
+                defining_graph = producer.graph if producer is not None else input.graph
+                if any(defining_graph is graph for graph in self._graphs_in_progress):
+                    # The value is defined by a graph being cloned but has not been cloned yet:
+                    # it is a forward reference, not an outer-scope value. Sharing it would
+                    # link the clone into the original graph.
+                    raise ValueError(
+                        f"Value '{input}' used by node '{node}' is produced later in the graph being cloned. "
+                        "The graph must be topologically sorted before cloning; call graph.sort() first."
+                    )
                 if not self._allow_outer_scope_values:
                     graph_name = (
                         input.graph.name or "<anonymous>" if input.graph else "<unknown>"
@@ -272,7 +285,11 @@ class Cloner:
             self._clone_or_get_value(v, deep_copy=deep_copy)
             for v in graph.initializers.values()
         ]
-        nodes = [self.clone_node(node, deep_copy=deep_copy) for node in graph]
+        self._graphs_in_progress.append(graph)
+        try:
+            nodes = [self.clone_node(node, deep_copy=deep_copy) for node in graph]
+        finally:
+            self._graphs_in_progress.pop()
         # Looks up already cloned values. Here we know graph outputs will not be None
         output_values = typing.cast(
             list["_core.Value"], [self._get_value(v) for v in graph.outputs]
